@@ -65,6 +65,19 @@ def _get_uses_of(node: ast.AST, scope: ast.AST, source: str) -> Iterable[ast.Nam
             # The function has a local variable of that name
             blacklisted_names.update(core.walk(funcdef, ast.Name(id=name)))
 
+    # Functions, lambdas, comprehensions and classes in a class body do not see the names of the class
+    if isinstance(scope, ast.ClassDef):
+        inner_scopes = (ast.FunctionDef, ast.AsyncFunctionDef, ast.ClassDef, ast.Lambda)
+        for inner in core.walk(scope, inner_scopes):
+            if inner is not scope:
+                for child in inner.body if isinstance(inner.body, list) else [inner.body]:
+                    blacklisted_names.update(core.walk(child, ast.Name))
+        for comp in core.walk(scope, (ast.ListComp, ast.SetComp, ast.GeneratorExp, ast.DictComp)):
+            outer_names = set(core.walk(comp.generators[0].iter, ast.Name))
+            blacklisted_names.update(
+                child for child in core.walk(comp, ast.Name) if child not in outer_names
+            )
+
     # A comprehension or lambda that binds the name has a variable of its own
     for comp in core.walk(scope, (ast.ListComp, ast.SetComp, ast.GeneratorExp, ast.DictComp)):
         if any(
